@@ -12,8 +12,8 @@ PROP = "C20"
 RULE = ("round trip xyz_str -> from_xyz for n in {1,2,3,7,40,100,1000,1001} (thorough: also 99, 101, 999, 9999, 10000, 10001) atoms, all 118 elements cycled through the positions, every "
         "coordinate from a value grid (0, -0, +-1e-9, +-4.9e-9, +-5.1e-9, +-0.123456789, +-1, +-12345.678901234, +-999999.99999999, "
         "+-1e6; full product for one atom, Latin-square covering above), 9 comment lines incl. None, empty, numeric-looking, "
-        "unicode, tabs, 200 characters: elements identical, |delta| <= 0.5e-8 (+1 ulp).  Connectivity: all 118x118 element pairs "
-        "at distance cutoff*(1 -+ 1e-6), cutoff*(1 -+ 0.02), 0 (coincident atoms) and cutoff*1e-9 in a seed-derived direction, via the matrix API, the scalar API and "
+        "unicode, tabs, 200 characters, braces / percent signs / shell characters: elements identical, |delta| <= 0.5e-8 (+1 ulp).  Connectivity: all 118x118 element pairs "
+        "at distance cutoff*(1 -+ 1e-6), cutoff*(1 -+ 0.02), 0 (coincident atoms) and cutoff*1e-9 in a seed-derived direction, via the matrix API, the scalar API (also exactly at the cut-off and one ulp below it) and "
         "MolGraph.from_geometry: symmetric, zero diagonal, bond iff d < 1.2(r1+r2) recomputed from the radii table; the "
         "repository's XYZ files and the C07 templates under rigid motions and atom permutations.  distinct = cases")
 ASSUMPTIONS = ["comment lines are single lines", "the covalent radii table is data of the library and is read, not re-derived",
@@ -25,7 +25,9 @@ VALS = [0.0, -0.0, 1e-9, -1e-9, 4.9e-9, -4.9e-9, 5.1e-9, -5.1e-9, 0.123456789, -
 COMMENTS = [None, "", " ", "#x", "H 0 0 0", "3", "café αβ →", "x" * 200, "a\tb\tc", "  leading and trailing  ",
             "1.0 2.0 3.0 4.0",
             # characters that str.splitlines() treats as line boundaries but that do not end a line of an XYZ file
-            "step 3\x0cH 0.0 0.0 0.0", "a\x0bb", "a\x1cb\x1dc\x1ed", "a\x85b", "a\u2028b\u2029c", "a\rb"]
+            "step 3\x0cH 0.0 0.0 0.0", "a\x0bb", "a\x1cb\x1dc\x1ed", "a\x85b", "a\u2028b\u2029c", "a\rb",
+            # characters with a meaning for str.format / % / f-strings / shells
+            "props={'E': -40.5}", "{}", "{0} {1}", "set = {", "}", "{{x}}", "100% %s %d %%", "$HOME `x` \\n"]
 
 
 def items(tier, seed):
@@ -156,6 +158,24 @@ def _pairs(item, out):
                     V("threshold-array", f"matrix says {int(M[0, 1])}, expected {exp}")
                 if M2[0, 1] != M[0, 1] or M2[1, 0] != M[0, 1]:
                     V("order-dependent", f"swapping the two atoms changes the answer {M.tolist()} vs {M2.tolist()}")
+                if f == 0.98:
+                    # the scalar entry point exactly AT the threshold: 'below' excludes equality.  The threshold 1.2 x (r1 + r2) has
+                    # two natural floating-point evaluations; a distance equal to the larger one is not below either of them, the
+                    # largest float below the smaller one is below both
+                    r = G.radii()
+                    cands = ((r[z1] + r[z2]) * 1.2, 1.2 * r[z1] + 1.2 * r[z2])
+                    hi, lo = max(cands), float(np.nextafter(min(cands), 0.0))
+                    out["evals"] += 2
+                    try:
+                        if int(bfd(hi, (z1, z2))) != 0:
+                            V("threshold-scalar-equal", f"scalar API bonds the pair at a distance of exactly the cut-off {hi!r}")
+                        if int(bfd(lo, (z1, z2))) != 1:
+                            V("threshold-scalar-below", f"scalar API does not bond the pair one ulp below the cut-off ({lo!r})")
+                        xe = np.array([[0.0, 0.0, 0.0], [hi, 0.0, 0.0]])
+                        if float(np.linalg.norm(xe[1] - xe[0])) == hi and int(np.asarray(bfd.array(xe, [z1, z2]))[0, 1]) != 0:
+                            V("threshold-array-equal", f"matrix API bonds the pair at a distance of exactly the cut-off {hi!r}")
+                    except Exception as e:
+                        V("scalar-raised:" + type(e).__name__, f"{e!r}")
                 if f in (0.98, 1.02):
                     try:
                         s = bfd(float(np.linalg.norm(xyz[1] - xyz[0])), (z1, z2))
